@@ -526,4 +526,369 @@ theorem commitPow_take_eq (vs : List Validator) (ss : List CSig) (k : Nat)
   intro i hi
   simp [List.getD_eq_getElem?_getD, hi]
 
+/-! ### trusting loop: "exactly when" -/
+
+/-- the trusted validator (index, info) a block-commit entry refers to -/
+def ownerOf (vals : List Validator) (s : CSig) : Option (Nat × Validator) :=
+  if s.flag = .commit then findValidator vals s.addr else none
+
+/-- indices of the trusted validators the block-commit entries refer to, in commit order -/
+def owners (vals : List Validator) : List CSig → List Nat
+  | [] => []
+  | s :: ss =>
+    match ownerOf vals s with
+    | some (vi, _) => vi :: owners vals ss
+    | none => owners vals ss
+
+/-- their powers, summed entry by entry -/
+def ownerPow (vals : List Validator) : List CSig → Nat
+  | [] => 0
+  | s :: ss =>
+    match ownerOf vals s with
+    | some (_, v) => v.power + ownerPow vals ss
+    | none => ownerPow vals ss
+
+/-- every block-commit entry has a signature, and it verifies under the trusted validator the
+    entry refers to (if any) -/
+def allValidT (ok : Nat → Nat → Bool) (vals : List Validator) : Nat → List CSig → Bool
+  | _, [] => true
+  | idx, s :: ss =>
+    (if s.flag = .commit then
+      s.hasSig && (match findValidator vals s.addr with
+        | some (vi, _) => ok vi idx
+        | none => true)
+     else true) && allValidT ok vals (idx + 1) ss
+
+/-- **the trusting loop over a prefix without double votes and with valid signatures**: it
+    accepts as soon as the tally exceeds the threshold, otherwise it arrives at the rest of the
+    commit having tallied every trusted signer of the prefix exactly once -/
+theorem trustLoop_prefix (ok : Nat → Nat → Bool) (needed : Nat) (vals : List Validator) (rest : List CSig) :
+    ∀ (pre : List CSig) (idx : Nat) (seen : List Nat) (t : Nat),
+      allValidT ok vals idx pre = true → (owners vals pre).Nodup →
+      (∀ vi ∈ owners vals pre, vi ∉ seen) → t + ownerPow vals pre < U64_LIMIT → t ≤ needed →
+      trustLoop ok needed vals idx seen t (pre ++ rest) =
+        if needed < t + ownerPow vals pre then .ok
+        else trustLoop ok needed vals (idx + pre.length) ((owners vals pre).reverse ++ seen)
+          (t + ownerPow vals pre) rest := by
+  intro pre
+  induction pre with
+  | nil =>
+    intro idx seen t _ _ _ _ ht
+    have h0 : ownerPow vals [] = 0 := rfl
+    have h1 : owners vals [] = [] := rfl
+    rw [h0, h1, if_neg (by omega)]
+    simp
+  | cons s pre ih =>
+    intro idx seen t hv hnd hdis hb ht
+    rw [List.cons_append, trustLoop]
+    simp only [allValidT, Bool.and_eq_true] at hv
+    obtain ⟨hv1, hv2⟩ := hv
+    have hidx : idx + (s :: pre).length = idx + 1 + pre.length := by simp only [List.length_cons]; omega
+    rw [hidx]
+    by_cases hc : s.flag = .commit
+    · rw [if_pos hc] at hv1 ⊢
+      rw [Bool.and_eq_true] at hv1
+      obtain ⟨hs, hok⟩ := hv1
+      rw [if_neg (by simp [hs])]
+      cases hf : findValidator vals s.addr with
+      | none =>
+        have ho : ownerOf vals s = none := by simp [ownerOf, hc, hf]
+        simp only [owners, ownerPow, ho] at hnd hdis hb ⊢
+        exact ih (idx + 1) seen t hv2 hnd hdis hb ht
+      | some p =>
+        obtain ⟨vi, v⟩ := p
+        have ho : ownerOf vals s = some (vi, v) := by simp [ownerOf, hc, hf]
+        simp only [owners, ownerPow, ho, List.nodup_cons] at hnd hdis hb ⊢
+        rw [hf] at hok
+        simp only at hok
+        have hnot : seen.contains vi = false := by
+          have := hdis vi (List.mem_cons_self ..)
+          simpa using this
+        rw [if_neg (by rw [hnot]; exact Bool.false_ne_true), if_neg (by simp [hok]), if_neg (by omega)]
+        by_cases hgt : t + v.power > needed
+        · rw [if_pos hgt, if_pos (by omega)]
+        · rw [if_neg hgt]
+          have hdis' : ∀ x ∈ owners vals pre, x ∉ vi :: seen := by
+            intro x hx hmem
+            rcases List.mem_cons.mp hmem with rfl | hmem
+            · exact hnd.1 hx
+            · exact hdis x (List.mem_cons_of_mem _ hx) hmem
+          rw [ih (idx + 1) (vi :: seen) (t + v.power) hv2 hnd.2 hdis' (by omega) (by omega)]
+          simp only [Nat.add_assoc, List.reverse_cons, List.append_assoc, List.singleton_append]
+    · rw [if_neg hc] at hv1 ⊢
+      have ho : ownerOf vals s = none := by simp [ownerOf, hc]
+      simp only [owners, ownerPow, ho] at hnd hdis hb ⊢
+      exact ih (idx + 1) seen t hv2 hnd hdis hb ht
+
+/-- the tally of entries without double votes is the indicator sum over their owners -/
+theorem seenSum_owners (vals : List Validator) :
+    ∀ (ss : List CSig) (S : List Nat), (owners vals ss).Nodup → (∀ vi ∈ owners vals ss, vi ∉ S) →
+      seenSum vals (owners vals ss ++ S) = ownerPow vals ss + seenSum vals S := by
+  intro ss
+  induction ss with
+  | nil => intro S _ _; simp [owners, ownerPow]
+  | cons s ss ih =>
+    intro S hnd hdis
+    cases ho : ownerOf vals s with
+    | none =>
+      simp only [owners, ownerPow, ho] at hnd hdis ⊢
+      exact ih S hnd hdis
+    | some p =>
+      obtain ⟨vi, v⟩ := p
+      simp only [owners, ownerPow, ho, List.nodup_cons] at hnd hdis ⊢
+      have hf : findValidator vals s.addr = some (vi, v) := by
+        unfold ownerOf at ho
+        split at ho
+        · exact ho
+        · cases ho
+      have hfv := findValidator_some vals s.addr vi v hf
+      have hnot : vi ∉ owners vals ss ++ S := by
+        intro hm
+        rcases List.mem_append.mp hm with hm | hm
+        · exact hnd.1 hm
+        · exact hdis vi (List.mem_cons_self ..) hm
+      rw [List.cons_append, seenSum_cons vals _ vi v hnot hfv.1,
+        ih S hnd.2 (fun x hx => hdis x (List.mem_cons_of_mem _ hx))]
+      omega
+
+theorem mem_owners (vals : List Validator) (i : Nat) :
+    ∀ (ss : List CSig), i ∈ owners vals ss ↔
+      ∃ s ∈ ss, s.flag = .commit ∧ ∃ v, findValidator vals s.addr = some (i, v) := by
+  intro ss
+  induction ss with
+  | nil => simp [owners]
+  | cons s ss ih =>
+    by_cases hc : s.flag = .commit
+    · cases hf : findValidator vals s.addr with
+      | none =>
+        have ho : ownerOf vals s = none := by simp [ownerOf, hc, hf]
+        simp only [owners, ho, ih, List.mem_cons, exists_eq_or_imp, hf]
+        simp
+      | some p =>
+        obtain ⟨vi, v⟩ := p
+        have ho : ownerOf vals s = some (vi, v) := by simp [ownerOf, hc, hf]
+        simp only [owners, ho, ih, List.mem_cons, exists_eq_or_imp, hf, hc, true_and]
+        constructor
+        · rintro (rfl | h)
+          · exact Or.inl ⟨v, rfl⟩
+          · exact Or.inr h
+        · rintro (⟨w, hw⟩ | h)
+          · left
+            simp only [Option.some.injEq, Prod.mk.injEq] at hw
+            exact hw.1.symm
+          · exact Or.inr h
+    · have ho : ownerOf vals s = none := by simp [ownerOf, hc]
+      simp only [owners, ho, ih, List.mem_cons, exists_eq_or_imp, hc, false_and, false_or]
+
+/-- `find_validator` returns the FIRST validator with that address -/
+theorem findValidatorFrom_iff (a : Addr) (vals : List Validator) :
+    ∀ (k vi : Nat) (v : Validator), findValidatorFrom a k vals = some (vi, v) ↔
+      (k ≤ vi ∧ vals[vi - k]? = some v ∧ v.addr = a ∧
+        ∀ m, m < vi - k → ∀ w, vals[m]? = some w → w.addr ≠ a) := by
+  induction vals with
+  | nil => intro k vi v; simp [findValidatorFrom]
+  | cons x xs ih =>
+    intro k vi v
+    rw [findValidatorFrom]
+    by_cases hx : x.addr = a
+    · rw [if_pos hx]
+      constructor
+      · intro h
+        simp only [Option.some.injEq, Prod.mk.injEq] at h
+        obtain ⟨h1, h2⟩ := h
+        subst h1; subst h2
+        exact ⟨Nat.le_refl _, by simp, hx, fun m hm => by omega⟩
+      · rintro ⟨h1, h2, h3, h4⟩
+        have hvk : vi - k = 0 := by
+          by_cases h0 : vi - k = 0
+          · exact h0
+          · exact absurd hx (h4 0 (by omega) x (by simp))
+        rw [hvk] at h2
+        simp only [List.getElem?_cons_zero, Option.some.injEq] at h2
+        have : k = vi := by omega
+        rw [this, h2]
+    · rw [if_neg hx, ih (k + 1) vi v]
+      constructor
+      · rintro ⟨h1, h2, h3, h4⟩
+        refine ⟨by omega, ?_, h3, ?_⟩
+        · have : vi - k = (vi - (k + 1)) + 1 := by omega
+          rw [this, List.getElem?_cons_succ]; exact h2
+        · intro m hm w hw
+          cases m with
+          | zero => simp at hw; subst hw; exact hx
+          | succ m => rw [List.getElem?_cons_succ] at hw; exact h4 m (by omega) w hw
+      · rintro ⟨h1, h2, h3, h4⟩
+        have hne : vi ≠ k := by
+          intro he
+          rw [he, Nat.sub_self] at h2
+          simp only [List.getElem?_cons_zero, Option.some.injEq] at h2
+          rw [h2] at hx; exact hx h3
+        refine ⟨by omega, ?_, h3, ?_⟩
+        · have : vi - k = (vi - (k + 1)) + 1 := by omega
+          rw [this, List.getElem?_cons_succ] at h2; exact h2
+        · intro m hm w hw
+          exact h4 (m + 1) (by omega) w (by rw [List.getElem?_cons_succ]; exact hw)
+
+/-- the spec's "the trusted validator this address refers to" is `find_validator` -/
+theorem isOwner_iff (vs : ValSet) (h ch : Nat) (sigs : List CSig) (i : Nat) (a : Addr) :
+    isOwner (specInput vs h ch sigs) i a = true ↔ ∃ v, findValidator vs.vals a = some (i, v) := by
+  unfold findValidator
+  simp only [findValidatorFrom_iff, Nat.zero_le, Nat.sub_zero, true_and]
+  simp only [isOwner, specInput, Bool.and_eq_true, beq_iff_eq, List.all_eq_true, List.mem_range,
+    bne_iff_ne, ne_eq, List.getElem?_map, Option.map_eq_some_iff]
+  constructor
+  · rintro ⟨⟨v, hv, ha⟩, hmin⟩
+    exact ⟨v, hv, ha, fun m hm w hw hwa => hmin m hm ⟨w, hw, hwa⟩⟩
+  · rintro ⟨v, hv, ha, hmin⟩
+    exact ⟨⟨v, hv, ha⟩, fun m hm ⟨w, hw, hwa⟩ => hmin m hm w hw hwa⟩
+
+theorem signerTrusting_iff (vs : ValSet) (h ch : Nat) (sigs : List CSig) (i : Nat) :
+    signerTrusting (specInput vs h ch sigs) i = true ↔ i ∈ owners vs.vals sigs := by
+  rw [mem_owners]
+  simp only [signerTrusting, List.any_eq_true, List.mem_range, Bool.and_eq_true]
+  constructor
+  · rintro ⟨j, hj, hc, ho⟩
+    have hj' : j < sigs.length := by simpa [specInput] using hj
+    have he : entry (specInput vs h ch sigs) j = toEntry sigs[j] := by
+      simp [entry, specInput, hj']
+    rw [he] at hc ho
+    refine ⟨sigs[j], List.getElem_mem _, by simpa [toEntry] using hc, ?_⟩
+    exact (isOwner_iff vs h ch sigs i _).mp ho
+  · rintro ⟨s, hs, hc, ho⟩
+    obtain ⟨j, hj, rfl⟩ := List.getElem_of_mem hs
+    have he : entry (specInput vs h ch sigs) j = toEntry sigs[j] := by
+      simp [entry, specInput, hj]
+    refine ⟨j, by simpa [specInput] using hj, ?_, ?_⟩
+    · rw [he]; simp [toEntry, hc]
+    · rw [he]; exact (isOwner_iff vs h ch sigs i _).mpr ho
+
+/-- without double votes, the distinct trusted signers' power is the entry-by-entry tally -/
+theorem trustedSigningPower_eq (vs : ValSet) (h ch : Nat) (sigs : List CSig)
+    (hnd : (owners vs.vals sigs).Nodup) :
+    trustedSigningPower (specInput vs h ch sigs) = ownerPow vs.vals sigs := by
+  have h1 := seenSum_owners vs.vals sigs [] hnd (fun _ _ => by simp)
+  have h0 : seenSum vs.vals [] = 0 := by simp [seenSum, sumBelow_zero]
+  rw [List.append_nil, h0, Nat.add_zero] at h1
+  rw [← h1]
+  unfold trustedSigningPower seenSum
+  have hl : (specInput vs h ch sigs).powers.length = vs.vals.length := by simp [specInput]
+  rw [hl]
+  apply sumBelow_congr
+  intro i _
+  by_cases hm : i ∈ owners vs.vals sigs
+  · rw [if_pos hm, if_pos ((signerTrusting_iff vs h ch sigs i).mpr hm)]
+    simp [power, specInput]
+  · have : ¬ signerTrusting (specInput vs h ch sigs) i = true :=
+      fun hc => hm ((signerTrusting_iff vs h ch sigs i).mp hc)
+    simp [hm, this]
+
+/-- the spec's "no trusted validator is duplicated" makes the owners pairwise distinct -/
+theorem owners_nodup (vals : List Validator) :
+    ∀ (ss : List CSig),
+      noDoubleVote (fun a => (vals.map (·.addr)).contains a) (ss.map toEntry) = true →
+      (owners vals ss).Nodup := by
+  intro ss
+  induction ss with
+  | nil => intro _; simp [owners]
+  | cons s ss ih =>
+    intro h
+    simp only [List.map_cons, noDoubleVote, Bool.and_eq_true] at h
+    obtain ⟨h1, h2⟩ := h
+    cases ho : ownerOf vals s with
+    | none => simp only [owners, ho]; exact ih h2
+    | some p =>
+      obtain ⟨vi, v⟩ := p
+      simp only [owners, ho, List.nodup_cons]
+      refine ⟨?_, ih h2⟩
+      have hc : s.flag = .commit := by
+        unfold ownerOf at ho
+        split at ho
+        · assumption
+        · cases ho
+      have hf : findValidator vals s.addr = some (vi, v) := by simpa [ownerOf, hc] using ho
+      have hfv := findValidator_some vals s.addr vi v hf
+      intro hm
+      obtain ⟨s', hs', hc', v', hf'⟩ := (mem_owners vals vi ss).mp hm
+      have hfv' := findValidator_some vals s'.addr vi v' hf'
+      have hvv : v' = v := by
+        have := hfv'.1; rw [hfv.1] at this; exact (Option.some.inj this).symm
+      have haddr : s'.addr = s.addr := by rw [← hfv'.2, ← hfv.2, hvv]
+      have htr : (vals.map (·.addr)).contains s.addr = true := by
+        simp only [List.contains_iff_mem, List.mem_map]
+        exact ⟨v, List.mem_of_getElem? hfv.1, hfv.2⟩
+      have hpre : ((toEntry s).isCommit && (vals.map (·.addr)).contains (toEntry s).addr) = true := by
+        rw [Bool.and_eq_true]; exact ⟨by simp [toEntry, hc], htr⟩
+      rw [hpre] at h1
+      simp only [Bool.not_true, Bool.false_or] at h1
+      have := List.all_eq_true.mp h1 (toEntry s') (List.mem_map_of_mem hs')
+      simp [toEntry, hc', haddr] at this
+
+theorem allValidT_of (ok : Nat → Nat → Bool) (vs : ValSet) (h ch : Nat) (sigs : List CSig) :
+    ∀ (k : Nat) (ss : List CSig),
+      (∀ j, j < ss.length →
+        (!((ss.map toEntry).getD j noVote).isCommit ||
+          (((ss.map toEntry).getD j noVote).hasSig &&
+            (List.range vs.vals.length).all (fun i =>
+              !isOwner (specInput vs h ch sigs) i ((ss.map toEntry).getD j noVote).addr || ok i (k + j)))) = true) →
+      allValidT ok vs.vals k ss = true := by
+  intro k ss
+  induction ss generalizing k with
+  | nil => intro _; simp [allValidT]
+  | cons s ss ih =>
+    intro hall
+    have h0 := hall 0 (by simp)
+    have hrest := ih (k + 1) (fun j hj => by
+      have := hall (j + 1) (by simp; omega)
+      simpa [Nat.add_assoc, Nat.add_comm 1] using this)
+    simp only [List.map_cons, List.getD_cons_zero, toEntry, Nat.add_zero] at h0
+    simp only [allValidT, hrest, Bool.and_true]
+    by_cases hc : s.flag = .commit
+    · simp only [hc, decide_true, Bool.not_true, Bool.false_or, Bool.and_eq_true, List.all_eq_true,
+        List.mem_range] at h0
+      rw [if_pos hc, Bool.and_eq_true]
+      refine ⟨h0.1, ?_⟩
+      cases hf : findValidator vs.vals s.addr with
+      | none => rfl
+      | some p =>
+        obtain ⟨vi, v⟩ := p
+        simp only
+        have hfv := findValidator_some vs.vals s.addr vi v hf
+        have hlt : vi < vs.vals.length := (List.getElem?_eq_some_iff.mp hfv.1).1
+        have := h0.2 vi hlt
+        rw [(isOwner_iff vs h ch sigs vi s.addr).mpr ⟨v, hf⟩] at this
+        simpa using this
+    · rw [if_neg hc]
+
+theorem ownerPow_le_sum (vals : List Validator) (ss : List CSig) (hnd : (owners vals ss).Nodup) :
+    ownerPow vals ss ≤ sumPowers vals := by
+  have h1 := seenSum_owners vals ss [] hnd (fun _ _ => by simp)
+  have := seenSum_le_sumPowers vals (owners vals ss ++ [])
+  omega
+
+theorem findValidatorFrom_isSome (a : Addr) (vals : List Validator) :
+    ∀ k, a ∈ vals.map (·.addr) → ∃ vi v, findValidatorFrom a k vals = some (vi, v) := by
+  induction vals with
+  | nil => intro k h; simp at h
+  | cons x xs ih =>
+    intro k h
+    rw [findValidatorFrom]
+    by_cases hx : x.addr = a
+    · exact ⟨k, x, by rw [if_pos hx]⟩
+    · rw [if_neg hx]
+      apply ih (k + 1)
+      simp only [List.map_cons, List.mem_cons] at h
+      rcases h with h | h
+      · exact absurd h.symm hx
+      · exact h
+
+/-- a block-commit entry (with a signature) of a trusted validator that was already tallied is
+    answered with the "Double vote" ERROR — before its signature is even looked at -/
+theorem trustLoop_double (ok : Nat → Nat → Bool) (needed : Nat) (vals : List Validator) (idx : Nat)
+    (seen : List Nat) (t : Nat) (d : CSig) (rest : List CSig) (vi : Nat) (v : Validator)
+    (hd : d.flag = .commit) (hsig : d.hasSig = true) (hf : findValidator vals d.addr = some (vi, v))
+    (hm : vi ∈ seen) : trustLoop ok needed vals idx seen t (d :: rest) = .err .doubleVote := by
+  rw [trustLoop, if_pos hd, if_neg (by simp [hsig]), hf]
+  simp only
+  rw [if_pos (by simpa using hm)]
+
 end Lumina.Proofs.Commit
